@@ -12,6 +12,7 @@ import (
 	"github.com/pokt-network/pocket-core/codec"
 	sdk "github.com/pokt-network/pocket-core/types"
 	appsTypes "github.com/pokt-network/pocket-core/x/apps/types"
+	govTypes "github.com/pokt-network/pocket-core/x/gov/types"
 	nodesTypes "github.com/pokt-network/pocket-core/x/nodes/types"
 )
 
@@ -90,7 +91,14 @@ func profileFor(prop string) profile {
 }
 
 func newGenerator(s *Sim, r *core.Rand) *generator {
-	return &generator{s: s, r: r, prof: profileFor(s.prop), downVictim: -1}
+	g := &generator{s: s, r: r, prof: profileFor(s.prop), downVictim: -1}
+	if s.cfg.StartHeight > 0 {
+		// plain transactions and blocks only: at those heights rewards and slashing follow replay
+		// branches of main-net history which the properties do not describe
+		g.prof.relay, g.prof.claims, g.prof.restart, g.prof.offchain = 0, 0, 0, 0
+		g.prof.tx, g.prof.block = 50, 50
+	}
+	return g
 }
 
 // tuneForProperty adjusts the swarm configuration where a property needs a region to be reachable.
@@ -368,11 +376,18 @@ func (g *generator) genInterf(phase string) Interf {
 		}
 		tx.ID = 0
 		q.Tx = tx
+		if r.Chance(0.15) {
+			// an unsigned proof for one of this node's pending claims, with a made-up merkle path
+			q.Tx = &Step{Op: "tx", Kind: "bad_proof", Sig: "none", Output: -1}
+		}
 	case x < g.prof.simulateShare+0.2:
 		q.Kind = "checktx"
 		tx := g.genTx()
 		tx.ID = 0
 		q.Tx = tx
+		if r.Chance(0.4) {
+			q.Path = "recheck"
+		}
 	default:
 		q.Kind = "query"
 		paths := []string{"balance", "account", "node", "app", "nodes", "apps", "params", "supply", "claims", "upgrade", "store", "version",
@@ -787,6 +802,19 @@ func (g *generator) genParam() (string, string) {
 			{"pocketcore/ClaimSubmissionWindow", q(int64(r.Range(2, 4)))},
 			{"pos/UnstakingTime", q(int64(r.Range(1, 7200)) * 1_000_000_000)},
 			{"pos/DowntimeJailDuration", q(int64(r.Range(60, 7200)) * 1_000_000_000)},
+		}
+	}
+	if g.s.prop == "C37" && r.Chance(0.25) {
+		// the upgrade record itself, through the parameter-change message: same height and version,
+		// a feature list of the sender's choosing
+		up := govTypes.NewUpgrade(c.UpgradeHeight, "0.12.0")
+		up.OldUpgradeHeight = c.CodecUpgradeHeight
+		n := r.Range(0, 3)
+		for i := 0; i < n; i++ {
+			up.Features = append(up.Features, fmt.Sprintf("%s:%d", allFeatures[r.Intn(len(allFeatures))], g.s.drv.Height+int64(r.Range(1, 12))))
+		}
+		if bz, err := govTypes.ModuleCdc.MarshalJSON(up); err == nil {
+			return "gov/upgrade", string(bz)
 		}
 	}
 	o := opts[r.Intn(len(opts))]
